@@ -221,7 +221,7 @@ class DefiniteAssignment:
     def _bind(self, world, names, truth=None):
         assigned, facts = world
         names = set(names)
-        facts = frozenset(f for f in facts if f[0] not in names)
+        facts = frozenset(f for f in facts if f[0].split('#')[0] not in names)
         if truth is not None and len(names) == 1:
             (nm,) = names
             if nm in self.fact_vars:
@@ -264,15 +264,24 @@ class DefiniteAssignment:
         if isinstance(expr, ast.Name) and expr.id in self.fact_vars:
             if (expr.id, not polarity) in facts:
                 return None
-            return (assigned, facts | {(expr.id, polarity)})
+            if polarity and (expr.id + '#isnone', True) in facts:
+                return None
+            extra = {(expr.id, polarity)}
+            if polarity:
+                extra.add((expr.id + '#isnone', False))
+            return (assigned, facts | extra)
         if isinstance(expr, ast.Compare) and len(expr.ops) == 1 and isinstance(expr.left, ast.Name) \
-                and expr.left.id in self.fact_vars \
+                and expr.left.id in self.fact_vars and isinstance(expr.ops[0], (ast.Is, ast.IsNot)) \
                 and isinstance(expr.comparators[0], ast.Constant) and expr.comparators[0].value is None:
             is_none = isinstance(expr.ops[0], ast.Is) == polarity
-            if isinstance(expr.ops[0], (ast.Is, ast.IsNot)) and is_none:
+            key = expr.left.id + '#isnone'
+            if (key, not is_none) in facts:
+                return None
+            if is_none:
                 if (expr.left.id, True) in facts:
                     return None
-                return (assigned, facts | {(expr.left.id, False)})
+                return (assigned, facts | {(expr.left.id, False), (key, True)})
+            return (assigned, facts | {(key, False)})
         return world
 
     def _transfer(self, node, world):
@@ -362,7 +371,7 @@ class DefiniteAssignment:
                     if t.id in self.locals and t.id not in assigned:
                         self._report(t.id, node, 'read')
                     assigned = assigned - {t.id}
-                    facts = frozenset(f for f in facts if f[0] != t.id)
+                    facts = frozenset(f for f in facts if f[0].split('#')[0] != t.id)
                 else:
                     self._check_expr(t, w, node)
             return {None: (assigned, facts)}
